@@ -214,6 +214,19 @@ func (c *FnCtx) applyHavoc(st, old *State, ms *ModSet, mayAlloc bool) {
 		c.smt.assume(fmt.Sprintf("(forall ((i Int)) (! (=> %s (= (select %s i) (select %s i))) :pattern ((select %s i))))", and(keep...), ng, cur, ng), "callee frame: call counters")
 		st.ghost["calls"] = ng
 	}
+	for g := range ms.ghost {
+		if g == "lastsent.*" {
+			for k, srt := range c.ghostSorts {
+				if strings.HasPrefix(k, "lastsent.") {
+					st.ghost[k] = c.smt.declareFresh("ghost."+k, srt)
+				}
+			}
+			continue
+		}
+		if srt, ok := c.ghostSorts[g]; ok {
+			st.ghost[g] = c.smt.declareFresh("ghost."+g, srt)
+		}
+	}
 	if ms.all {
 		c.havocAllBut(st, ms.preserve, nil)
 		return
@@ -255,19 +268,6 @@ func (c *FnCtx) applyHavoc(st, old *State, ms *ModSet, mayAlloc bool) {
 		}
 		c.smt.assume(fmt.Sprintf("(forall ((r Int)) (! (=> (not %s) (= (select %s r) (select %s r))) :pattern ((select %s r))))", or(may...), nh, cur, nh), "callee frame: "+h)
 		st.heaps[h] = nh
-	}
-	for g := range ms.ghost {
-		if g == "lastsent.*" {
-			for k, srt := range c.ghostSorts {
-				if strings.HasPrefix(k, "lastsent.") {
-					st.ghost[k] = c.smt.declareFresh("ghost."+k, srt)
-				}
-			}
-			continue
-		}
-		if srt, ok := c.ghostSorts[g]; ok {
-			st.ghost[g] = c.smt.declareFresh("ghost."+g, srt)
-		}
 	}
 	if mayAlloc {
 		na := c.smt.declareFresh("alloc", allocSort)
@@ -571,6 +571,9 @@ func (fr *Frame) runDefers(st *State, reach string) {
 		}
 		before := st.clone()
 		resT := d.cc.Signature().Results()
+		if _, isBuiltin := d.cc.Value.(*ssa.Builtin); !isBuiltin {
+			fr.countCall(fr.callName(d.cc, d.instr.Pos()), st) // a deferred call counts when it runs
+		}
 		if d.cc.IsInvoke() {
 			fr.invoke(d.cc, d.fn, d.args, resT, st, r, d.instr.Pos())
 		} else if b, ok := d.cc.Value.(*ssa.Builtin); ok {
@@ -598,11 +601,19 @@ func (fr *Frame) send(x *ssa.Send, st *State, reach string) {
 func (fr *Frame) recv(x *ssa.UnOp, ch Val, st *State, reach string) Val {
 	c := fr.c
 	et := ch.T.Underlying().(*types.Chan).Elem()
+	// a receive from a nil channel never completes: past this point the channel is not nil
+	c.smt.assume(implies(reach, not(eq(c.termOf(ch), "0"))), "a completed receive: the channel is not nil")
+	before := st.clone()
 	v := c.chanRecv(fr, st, reach, ch.T, c.termOf(ch), et)
 	if x.CommaOk {
+		// v, ok := <-ch (also `for v := range ch`): a value was received iff ok; on a closed channel nothing is counted
 		ok := c.smt.declareFresh("recvok", "Bool")
+		fr.recvAssume(st, and(reach, ok), ch.T, c.termOf(ch), v)
+		m := c.mergeStates([]incoming{{ok, st}, {not(ok), before}})
+		*st = *m
 		return Val{T: x.Type(), Tuple: []Val{v, {T: types.Typ[types.Bool], Term: ok}}}
 	}
+	fr.recvAssume(st, reach, ch.T, c.termOf(ch), v)
 	return v
 }
 
@@ -612,6 +623,9 @@ func (fr *Frame) recv(x *ssa.UnOp, ch Val, st *State, reach string) Val {
 func (c *FnCtx) chanSend(fr *Frame, st *State, reach string, cht types.Type, ch string, v Val, pos token.Pos) {
 	if fr.contract != nil {
 		for _, cl := range fr.contract.clauses("sendsite") {
+			if cl.Label != "" && !strings.HasSuffix(types.TypeString(cht.Underlying().(*types.Chan).Elem(), nil), cl.Label) {
+				continue
+			}
 			env := fr.env(st)
 			env.names["ch"] = Val{T: cht, Term: ch}
 			vv := v
@@ -681,6 +695,33 @@ func (c *FnCtx) noteRecv(st *State, ch string, et types.Type, v Val) {
 	c.noteLastRecv(st, ch, et, v)
 }
 
+// recvAssume: channel message invariants (`recvsite assumes`) hold for a received value.
+func (fr *Frame) recvAssume(st *State, cond string, cht types.Type, ch string, v Val) {
+	if fr.contract == nil {
+		return
+	}
+	c := fr.c
+	et := cht.Underlying().(*types.Chan).Elem()
+	for _, cl := range fr.contract.clauses("recvsite") {
+		if cl.Label != "" && !strings.HasSuffix(types.TypeString(et, nil), cl.Label) {
+			continue
+		}
+		env := fr.env(st)
+		env.names["ch"] = Val{T: cht, Term: ch}
+		vv := v
+		if vv.Term == "" {
+			vv.Term = c.termOf(v)
+		}
+		env.names["val"] = vv
+		t, err := env.evalBool(cl.Expr)
+		if err != nil {
+			fr.bindFailure(cl, err)
+			continue
+		}
+		c.smt.assume(implies(cond, t), "channel message invariant (recvsite assumes): "+cl.Text)
+	}
+}
+
 func (c *FnCtx) noteLastRecv(st *State, ch string, et types.Type, v Val) {
 	lg := "lastreceived." + sortTag(c.sortOf(et))
 	c.ghostSorts[lg] = "(Array Int " + c.sortOf(et) + ")"
@@ -712,6 +753,7 @@ func (fr *Frame) selectStmt(x *ssa.Select, st *State, reach string) Val {
 			vals = append(vals, rv)
 			k++
 			// when this case is taken: one more value received on ch, and it is the last one received there
+			fr.recvAssume(st, and(reach, eq(idx, fmt.Sprint(i))), s.Chan.Type(), ch, rv)
 			after := st.clone()
 			c.noteRecv(after, ch, tup.At(k-1).Type(), rv)
 			m := c.mergeStates([]incoming{{eq(idx, fmt.Sprint(i)), after}, {not(eq(idx, fmt.Sprint(i))), st}})
